@@ -3,6 +3,11 @@ package main
 import (
 	"encoding/hex"
 	"fmt"
+	"os"
+	"path/filepath"
+	"strings"
+
+	"github.com/EdgeCast/vflow/ipfix"
 
 	"github.com/EdgeCast/vflow/zzverif/flowh"
 	"github.com/EdgeCast/vflow/zzverif/mck"
@@ -22,6 +27,7 @@ func init() {
 		spaces[p+".pad8"] = func(t string) mck.Space { return tplSpace(v9, flowh.Kinds(v9, true), 2, true) }
 		spaces[p+".twosets"] = func(t string) mck.Space { return twoSetSpace(v9, flowh.Kinds(v9, true)) }
 		spaces[p+".allelems"] = func(t string) mck.Space { return allElemSpace(v9) }
+		spaces[p+".loaded"] = func(t string) mck.Space { return loadedElemSpace(v9) }
 	}
 }
 
@@ -252,8 +258,88 @@ func kindNames(ks []flowh.Kind) []string {
 
 // allElemSpace: every element of the information model as a single-field template, in
 // each encoding class, 2 records, 4 value patterns.
+// loadedElemSpace: the same sweep after the information model has been REPLACED through the real
+// ipfix.LoadExtElements (the collector does this at start-up when <config dir>/ipfix.elements exists):
+// the file written here holds every element of the model in force, every fifth one re-typed, plus the
+// harness's private elements. Decoding (IPFIX and NetFlow v9 share the model) must follow the model
+// in force, not the one compiled in.
+func loadedElemSpace(v9 bool) mck.Space {
+	flowh.InstallExtra()
+	typeNames := []string{"octetArray", "unsigned8", "unsigned16", "unsigned32", "unsigned64", "signed8", "signed16", "signed32", "signed64", "float32", "float64",
+		"boolean", "macAddress", "string", "dateTimeSeconds", "dateTimeMilliseconds", "dateTimeMicroseconds", "dateTimeNanoseconds", "ipv4Address", "ipv6Address"}
+	var known []string
+	for _, n := range typeNames {
+		if _, ok := ipfix.FieldTypes[n]; ok {
+			known = append(known, n)
+		}
+	}
+	nameOf := func(t ipfix.FieldType) int {
+		for i, n := range known {
+			if ipfix.FieldTypes[n] == t {
+				return i
+			}
+		}
+		return -1
+	}
+	keys := flowh.ModelKeys()
+	want := map[[2]int]ipfix.FieldType{}
+	var sb strings.Builder
+	lastPEN := -1
+	retyped := 0
+	for i, k := range keys {
+		e := ipfix.InfoModel[ipfix.ElementKey{EnterpriseNo: uint32(k[0]), ElementID: uint16(k[1])}]
+		ti := nameOf(e.Type)
+		if ti < 0 {
+			continue // an element of a type without a name cannot be written to the file
+		}
+		if i%5 == 2 {
+			ti = (ti + 1 + i%7) % len(known)
+			retyped++
+		}
+		if k[0] != lastPEN {
+			fmt.Fprintf(&sb, "%d:\n", k[0])
+			lastPEN = k[0]
+		}
+		fmt.Fprintf(&sb, "  %d:\n  - e%d\n  - %s\n", k[1], k[1], known[ti])
+		want[k] = ipfix.FieldTypes[known[ti]]
+	}
+	dir, err := os.MkdirTemp(os.Getenv("VERIF_TMP"), "loadedmodel")
+	if err != nil {
+		panic(err)
+	}
+	if err := os.WriteFile(filepath.Join(dir, "ipfix.elements"), []byte(sb.String()), 0644); err != nil {
+		panic(err)
+	}
+	lerr := ipfix.LoadExtElements(dir)
+	os.RemoveAll(dir)
+	mismatch := ""
+	if lerr != nil {
+		mismatch = "LoadExtElements: " + lerr.Error()
+	} else if len(ipfix.InfoModel) != len(want) {
+		mismatch = fmt.Sprintf("%d elements in the file, %d in the model after loading", len(want), len(ipfix.InfoModel))
+	} else {
+		for k, t := range want {
+			if ipfix.InfoModel[ipfix.ElementKey{EnterpriseNo: uint32(k[0]), ElementID: uint16(k[1])}].Type != t {
+				mismatch = fmt.Sprintf("element %d/%d does not have the type the file gives it", k[0], k[1])
+				break
+			}
+		}
+	}
+	inner := elemSpace(v9, "loaded-model")
+	if mismatch != "" || retyped == 0 {
+		return mck.FuncSpace{N: 1, F: func(idx uint64, c *mck.Ctx) {
+			c.Violation("model:load-mismatch", "the model in force after ipfix.LoadExtElements is not the file's: "+mismatch, map[string]interface{}{"elements": len(want), "retyped": retyped})
+		}}
+	}
+	return inner
+}
+
 func allElemSpace(v9 bool) mck.Space {
 	flowh.InstallExtra()
+	return elemSpace(v9, "records")
+}
+
+func elemSpace(v9 bool, label string) mck.Space {
 	type ek struct {
 		pen uint32
 		id  uint16
@@ -307,7 +393,7 @@ func allElemSpace(v9 bool) mck.Space {
 		fc := &flowCase{V9: v9, Tpls: tpls, Desc: fmt.Sprintf("element %d/%d type %s len %d pattern %d", k.pen, k.id, ref.ATypeNames[at], kind.F.Len, d[2])}
 		fc.Pre = []*ref.Msg{{V9: v9, Hdr: hdrFor(v9, 1), Sets: []ref.Set{{Kind: ref.SetTemplates, Templates: []ref.Template{t}}}}}
 		fc.Msg = &ref.Msg{V9: v9, Hdr: hdrFor(v9, 2), Sets: []ref.Set{{Kind: ref.SetData, TemplateID: 400, Records: recs}}}
-		wire := runFlowCase(c, fc, name+":records")
+		wire := runFlowCase(c, fc, name+":"+label)
 		c.Nontrivial(fc.hash)
 		c.Sample(func() interface{} { return describe(fc, wire) })
 	}}
